@@ -357,8 +357,9 @@ STATIC = list(globals().get("STATIC", [])) + list(TIMED_STATIC)
 # ---- C01 units reused (added after seeded change C02-3 was missed): "the window in which the task has released the internal lock
 # ---- but has not yet finished switching off its worker" is closed by the worker's switch_status::store_state -> restore_state CAS,
 # ---- which must ignore state_ex (a waker may have changed it); those are the C01 units of the same name, run here as well
-_c01 = {}
-exec(compile(open("/verif/specs/C01/spec.py").read(), "/verif/specs/C01/spec.py", "exec"), _c01)
+_c01 = {"UNITS": []}
+if not globals().get("VX_NO_REUSE"):     # C01 runs the sts.* units of this file (below) and sets VX_NO_REUSE: no cycle
+    exec(compile(open("/verif/specs/C01/spec.py").read(), "/verif/specs/C01/spec.py", "exec"), _c01)
 for _u in _c01["UNITS"]:
     if _u.name in ("word.restore_state_1", "word.restore_state_2", "word.set_state_tagged", "sw.ctor", "sw.store_state", "sw.store_state.owner",
                    "sw.dtor", "sw.assign", "loop.run_one",
